@@ -650,6 +650,9 @@ func (c *specCtx) pureValue0(key string, args []*Term) Value {
 	case SInt:
 		return intV(App("pure$"+key, SInt, args...))
 	}
+	if fc := c.e.w.Cs.Funcs[key]; fc != nil && strings.HasSuffix(strings.TrimSpace(fc.Header), "[]byte") {
+		return Value{K: VSlice, Ref: App("pure$"+key+".ref", SInt, args...), Off: App("pure$"+key+".off", SInt, args...), Len: App("pure$"+key+".len", SInt, args...), Cap: App("pure$"+key+".cap", SInt, args...)}
+	}
 	u := App("pure$"+key, SU, args...)
 	if fc := c.e.w.Cs.Funcs[key]; fc != nil && strings.HasSuffix(strings.TrimSpace(fc.Header), "string") {
 		return Value{K: VStr, Arr: App("unbox$str.arr", SArr, u), Off: App("unbox$str.off", SInt, u), Len: App("unbox$str.len", SInt, u)}
@@ -718,15 +721,23 @@ func (e *Env) collectInv(v Value, oldMap func(string, Sort) *Term, visit func(cl
 		key = nt.Obj().Pkg().Path() + "." + nt.Obj().Name()
 	}
 	if ti, ok := e.w.Cs.TypeInvs[key]; ok {
-		pkg := e.w.Pkgs[key[:strings.LastIndex(key, ".")]]
-		self := v
-		if self.K == VPtr {
-			self.K = VStruct
-			self.Typ = t
+		var op *Term
+		if v.K == VPtr || v.K == VStruct {
+			op = e.opaqueInv(v, t, key, oldMap)
 		}
-		c := &specCtx{e: e, names: map[string]Value{ti.Self: self}, bound: map[string]*Term{}, oldMap: oldMap, pkg: pkg}
-		for _, cl := range ti.Clauses {
-			visit(cl, c.boolTerm(cl.Expr))
+		if op != nil {
+			visit(&Clause{Kind: "typeinv", Text: "inv [abstract]"}, op)
+		} else {
+			pkg := e.w.Pkgs[key[:strings.LastIndex(key, ".")]]
+			self := v
+			if self.K == VPtr {
+				self.K = VStruct
+				self.Typ = t
+			}
+			c := &specCtx{e: e, names: map[string]Value{ti.Self: self}, bound: map[string]*Term{}, oldMap: oldMap, pkg: pkg}
+			for _, cl := range ti.Clauses {
+				visit(cl, c.boolTerm(cl.Expr))
+			}
 		}
 	}
 	if v.K == VPtr || v.K == VStruct {
